@@ -161,6 +161,10 @@ def cases(tier, inst):
     for h in histories(r_initial(), r_enabled, r_step, 6 if tier == "quick" else 7):
         if h and h[-1][0] == "M":
             yield ("@resume",) + h
+    # constructions that FAIL (the constructor raises): nothing was constructed, nothing may show up
+    for h in histories(f_initial(), f_enabled, f_step, 4 if tier == "quick" else 5):
+        if h and h[-1][0] == "E" and "KX" in h:
+            yield ("@failed",) + h
     # the same histories, two levels shallower, with the result cache DISABLED for the whole history (the registry of
     # instances is not a result cache: constructions must be registered all the same)
     for h in histories(initial(), enabled, step, d - 2):
@@ -196,6 +200,88 @@ def r_step(st, op):
         i = int(op[1]) - 1
         return (nq, states[:i] + (("suspended" if op[0] == "P" else "idle"),) + states[i + 1:])
     return st
+
+
+def f_initial():
+    return 0
+
+
+def f_enabled(nq):
+    return ["KH", "KX", "KR", "C"] + (["DH", "DHt"] if nq < 2 else []) + [f"E{i + 1}" for i in range(nq)]
+
+
+def f_step(nq, op):
+    return nq + (1 if op in ("DH", "DHt") else 0)
+
+
+def run_failed(hist, inst):
+    """KH = Hand(n); KR = Brittle(n) (succeeds); KX = Brittle(n, fail=True) raises ValueError"""
+    def body():
+        log, queries = [], []
+        nth = trans = n_failed = 0
+        for i, op in enumerate(hist):
+            trans += 1
+            try:
+                if op == "KH":
+                    nth += 1
+                    log.append(W.Hand(nth, tag=f"H{nth}"))
+                elif op == "KR":
+                    nth += 1
+                    log.append(W.Brittle(nth, tag=f"R{nth}"))
+                elif op == "KX":
+                    nth += 1
+                    try:
+                        W.Brittle(nth, fail=True)
+                        return ("failing-construction-did-not-raise", i, op, "no exception", "ValueError", None), trans
+                    except ValueError:
+                        n_failed += 1
+                elif op == "C":
+                    clear_registry()
+                    del log[:]
+                    n_failed = 0
+                elif op in ("DH", "DHt"):
+                    v = let(W.Hand)
+                    with symbolic_mode():
+                        queries.append((op, (the if op == "DHt" else an)(entity(v))))
+                else:
+                    kind, q = queries[int(op[1]) - 1]
+                    exp = sorted(repr(o) for o in log)
+                    if kind == "DHt":
+                        try:
+                            got_objs = [q.evaluate()]
+                            outcome = "value"
+                        except NoSolutionFound:
+                            got_objs, outcome = [], "NoSolution"
+                        except MultipleSolutionFound:
+                            got_objs, outcome = None, "Multiple"
+                        exp_outcome = "NoSolution" if not log else ("value" if len(log) == 1 else "Multiple")
+                        if outcome != exp_outcome or (got_objs and got_objs[0] is not log[0]):
+                            # the alternative reading of the recorded finding: the failed constructions count as instances
+                            n_alt = len(log) + n_failed
+                            alt = "NoSolution" if not n_alt else ("value" if n_alt == 1 else "Multiple")
+                            as_model = outcome == alt and not (got_objs and log and got_objs[0] is not log[0])
+                            return ("the:" + outcome + "-instead-of-" + exp_outcome, i, op, outcome, exp_outcome, as_model), trans
+                        continue
+                    got_objs = list(q.evaluate())
+                    got = sorted(repr(o) for o in got_objs)
+                    if got != exp:
+                        extra = [o for o in got_objs if not any(o is e for e in log)]
+                        only_failed = (sorted(repr(o) for o in got_objs if any(o is e for e in log)) == exp
+                                       and all(type(o) is W.Brittle and not hasattr(o, "k") for o in extra))
+                        return ("an:" + ("extra" if extra else "missing"), i, op, got, exp, only_failed), trans
+            except Exception as e:
+                return ("step-raised", i, op, exc_obs(e), "no exception", None), trans
+        return None, trans
+
+    bad, trans = run_isolated(body)
+    res = {"ok": bad is None, "nontrivial": True, "transitions": trans,
+           "tags": [f"len={len(hist)}", "failed_construction"] + [f"op={o[0] if o[0] in 'DE' else o}" for o in set(hist)],
+           "outcome": None}
+    if bad is not None:
+        kind, i, op, got, exp, only_failed = bad
+        res.update(sig=f"failed-construction:{kind}", obs=(f"at step {i + 1} of {list(hist)}", got), exp=exp,
+                   kf_hint={"extra_are_exactly_the_failed_constructions": only_failed})
+    return res
 
 
 def run_resume(hist, inst):
@@ -280,6 +366,8 @@ def run_case(hist, inst):
         return run_query_case(hist, inst)
     if hist and hist[0] == "@resume":
         return run_resume(hist[1:], inst)
+    if hist and hist[0] == "@failed":
+        return run_failed(hist[1:], inst)
     caching = True
     if hist and hist[0] == "@nocache":
         caching, hist = False, hist[1:]
@@ -430,6 +518,19 @@ def run_case(hist, inst):
     return res
 
 
+# ---------------------------------------------------------------- known-finding hooks (see eqlmc/kf.py)
+def _scope_failed_construction(case, inst):
+    return bool(case) and case[0] == "@failed"
+
+
+def _model_failed_construction_is_registered(case, inst, sig, obs, hint):
+    return sig.startswith("failed-construction:") and bool(hint) and hint.get("extra_are_exactly_the_failed_constructions") is True
+
+
+KF_SCOPES = {"history_with_a_failed_construction": _scope_failed_construction}
+KF_MODELS = {"failed_construction_is_registered": _model_failed_construction_is_registered}
+
+
 def registry_ids():
     from entity_query_language.symbolic import Variable
     out = []
@@ -461,6 +562,11 @@ def describe(hist, inst):
         return (Q.up_world(TWO, inst) + "\n# nothing else has been constructed: the registries are exactly DA (Item) and DO (Other)\n"
                 + Q.up_query(q, inst) + "\nrows = list(q.evaluate())   # expected: every satisfying (x, y) pair, each once; the same when evaluated "
                 "again, and again after `it = q.evaluate(); next(it); it.close()`")
+    if hist and hist[0] == "@failed":
+        return (f"history: {' ; '.join(hist[1:])}\n# KH=Hand(n) KR=Brittle(n) [class Brittle(Hand), undecorated] KX=`try: Brittle(n, fail=True)` "
+                "[its __init__ raises ValueError before initialising anything] C=clear the registry DH=declare q=an(entity(let(Hand))) "
+                "DHt=the(entity(let(Hand))) E<i>=evaluate q<i>\n"
+                "# expected at E<i>: exactly the Hand instances whose construction succeeded")
     if hist and hist[0] == "@resume":
         return (f"history: {' ; '.join(hist[1:])}\n# KB=Base(n, 7) KS=Sub(k=n) C=clear the registry DB=declare q=an(entity(let(Base))) "
                 "DS=`with symbolic_mode(): an(entity(Sub()))` E<i>=list(q<i>.evaluate()) P<i>=it<i> = q<i>.evaluate(); next(it<i>, None) "
